@@ -21,3 +21,4 @@ pub fn check(c: bool, why: &'static str) -> Result<(), &'static str> {
 }
 
 pub mod c09;
+pub mod c11;
